@@ -61,10 +61,12 @@ class Runner:
     def _clock_impl(freq, dt, n):
         def body(ph, _):
             nxt = gait.advance_gait_phase(ph, freq, dt)
-            return nxt, (jnp.max(jnp.abs(nxt)), jnp.abs(jnp.abs(nxt[0] - nxt[1]) - jnp.pi))
+            # `dev`: distance from half a cycle (on the circle); `loc`: its change within ONE tick (does not accumulate)
+            dev_of = lambda p: jnp.abs(jnp.abs(p[0] - p[1]) - jnp.pi)
+            return nxt, (jnp.max(jnp.abs(nxt)), dev_of(nxt), jnp.abs(dev_of(nxt) - dev_of(ph)))
 
-        ph, (mx, dev) = lax.scan(body, gait.initial_gait_phase(), None, length=n)
-        return ph, jnp.max(mx), jnp.max(dev)
+        ph, (mx, dev, loc) = lax.scan(body, gait.initial_gait_phase(), None, length=n)
+        return ph, jnp.max(mx), jnp.max(dev), jnp.max(loc)
 
     # ------------------------------------------------------------------ episodes through env.step
 
@@ -180,7 +182,7 @@ class Runner:
         if self.mode == "clock":
             for op in plan["ops"]:
                 if op["op"] == "clock":
-                    ph, mx, dev = jax.device_get(self._clock(jnp.asarray(op["freq"], dtype=float), jnp.asarray(op["dt"], dtype=float), int(op["n"])))
+                    ph, mx, dev, loc = jax.device_get(self._clock(jnp.asarray(op["freq"], dtype=float), jnp.asarray(op["dt"], dtype=float), int(op["n"])))
                     tr.ev("clock", freq=op["freq"], dt=op["dt"], n=op["n"], max_abs=float(mx), max_dev=float(dev))
                     res.steps += int(op["n"])
                     res.sim_seconds += op["n"] * op["dt"]
@@ -190,7 +192,13 @@ class Runner:
                         res.fail("C20", "phase_in_interval", "phase_left_minus_pi_pi", max_abs=float(mx), freq=op["freq"], dt=op["dt"])
                     else:
                         res.ok("C20", "phase_in_interval", int(op["n"]))
-                    if float(dev) > 1e-3:
+                    # float32: `phase + increment` rounds differently for the two legs (different binades), at most half an ulp of
+                    # 4 (2.4e-7) per leg and tick, and the bias is systematic for a fixed increment (observed on correct code:
+                    # 2.7e-8 per tick, 1.5e-3 after 1e6 ticks).  Exact per tick up to that; over n ticks at most n times that.
+                    # A real defect (legs advancing at different rates, a wrong wrap) is >= 1e-3 per tick.
+                    if float(loc) > 1e-5:
+                        res.fail("C20", "phase_half_cycle", "phase_distance_changed_within_one_tick", max_step_change=float(loc), freq=op["freq"], dt=op["dt"])
+                    elif float(dev) > 1e-4 + 5e-7 * op["n"]:
                         res.fail("C20", "phase_half_cycle", "feet_not_half_a_cycle_apart", max_deviation=float(dev), freq=op["freq"], dt=op["dt"], ticks=op["n"])
                     else:
                         res.ok("C20", "phase_half_cycle", int(op["n"]))
